@@ -91,6 +91,8 @@ func runC18(ctx *Ctx, w *Worker, c c18Case) {
 		m := p
 		if c.Mod == "basename" {
 			m = filepath.Base(p)
+		} else if c.Mod != "" {
+			m = w.Ask("mods", p, c.Mod) // the real modifier function on this member alone
 		}
 		exp = append(exp, "../"+m)
 	}
@@ -143,7 +145,7 @@ func keysOf(m map[string]json.RawMessage) []string {
 }
 
 func checkC18(ctx *Ctx) {
-	ctx.Res.Rule = "FileSource -> (optional stage with random task durations) -> StreamToSubStream -> joining process; sub-stream lengths {0,1,2,3,B,B+5} for SCIPIPE_BUFSIZE in {1,2,3}, separators {space, comma, colon}, with and without the basename modifier; non-trivial = at least two members; distinct by case. Checks: one task per sub-stream, the placeholder's expansion as seen by the command (members in arrival order, separated by SEP, each prefixed for the task's directory), the Lean formatting model's expansion, the concatenated contents, and the audit record's upstream keys."
+	ctx.Res.Rule = "FileSource -> (optional stage with random task durations) -> StreamToSubStream -> joining process; sub-stream lengths {0,1,2,3,B,B+5} for SCIPIPE_BUFSIZE in {1,2,3}, separators {space, comma, colon}, with and without a path modifier (basename, %suffix, s/a/b/); non-trivial = at least two members; distinct by case. Checks: one task per sub-stream, the placeholder's expansion as seen by the command (members in arrival order, separated by SEP, each prefixed for the task's directory), the Lean formatting model's expansion, the concatenated contents, and the audit record's upstream keys."
 	w := &Worker{}
 	defer w.Close()
 	r := NewRng(ctx.Seed)
@@ -156,6 +158,8 @@ func checkC18(ctx *Ctx) {
 			cases = append(cases, c18Case{N: n, Buf: B, Sep: []string{" ", ",", ":"}[r.Intn(3)], Mod: []string{"", "", "basename"}[r.Intn(3)], Slow: r.Intn(3) == 0})
 		}
 	}
+	// modifiers on a joined port apply to every member, not to the joined string
+	cases = append(cases, c18Case{N: 3, Buf: 2, Sep: " ", Mod: "basename"}, c18Case{N: 3, Buf: 1, Sep: ",", Mod: "%.txt"}, c18Case{N: 4, Buf: 3, Sep: ":", Mod: "s/m/q/", Slow: true})
 	parallel(len(cases), 6, func(i int) {
 		if ctx.TimeLeft() {
 			runC18(ctx, w, cases[i])
